@@ -725,6 +725,9 @@ class Evaluator:
                     fv = None
                 elif isinstance(val, tuple) and s["idx"] < len(val):
                     fv = val[s["idx"]]
+                if fv is None and isinstance(val, Sym) and k == "Leaf" and s.get("f"):
+                    # a struct pattern on an opaque value names the same thing as the field access `val.f`
+                    fv = Sym("%s.%s" % (val.d, s["f"]))
                 if fv is None:
                     fv = Sym("field(%s,%s)" % (vkey(val), s["f"] or s["idx"]))
                 self.bind(s["p"], fv, env)
@@ -1529,6 +1532,13 @@ class Evaluator:
             w = INT_W.get(n["ty"])
             if isinstance(v, Bits) and w:
                 return v.resize(w)
+            if isinstance(v, Cond) and w:
+                # `u32::from(flag)` is `flag as u32`
+                if v.op in ("true", "false"):
+                    return Bits.const(1 if v.op == "true" else 0, w)
+                if v.op == "any" and v.a[1] and len(v.a[0]) == 1:
+                    return Bits(w, [next(iter(v.a[0]))] + [0] * (w - 1))
+                return Sym("boolcast(%s)" % ckey(v))
             return v
         if fn.startswith("core::clone::Clone::clone") or fn.startswith("core::borrow::Borrow::borrow") or fn.startswith("core::convert::AsRef::as_ref"):
             return args[0]
